@@ -29,7 +29,7 @@ COMPONENTS = {
     'real': ['FeatureAnnotatedMolecule.annotate (method 0 blocks / method 1 per base) on base Fragment reads', 'singlecellmultiomics.features.FeatureContainer (addFeature, sort, findFeaturesAt all optim variants, findFeaturesBetween, findFeaturesAtPysamAlign)', 'functools.lru_cache shared by all instances', 'pysam.AlignedSegment'],
     'stub': ['interrupt injector: sys.settrace line events on FeatureContainer.sort, an exception raised at the k-th line'],
 }
-REQUIRED_PROBES = ['reindex_interrupted', 'lazy_reindex_by_point_query', 'molecule_annotation', 'repeat_query_across_reindex', 'lru_churn_evicted', 'nonempty_result', 'read_query', 'nested_hit']
+REQUIRED_PROBES = ['molecule_reannotated_after_reindex', 'reindex_interrupted', 'lazy_reindex_by_point_query', 'molecule_annotation', 'repeat_query_across_reindex', 'lru_churn_evicted', 'nonempty_result', 'read_query', 'nested_hit']
 
 
 def plan(tier):
@@ -205,6 +205,7 @@ def execute(case):
 
     broken = [False, False]
     aborted = [False, False]
+    kept_molecules = {}
 
     class _Interrupt(BaseException):
         pass
@@ -373,9 +374,17 @@ def execute(case):
                         for (a_, b_) in _blocks(start + off, cigar)[0]:
                             want |= _model_between(model[c], chrom, a_, b_ - 1, None)
                         off += 7
-                    mol = FeatureAnnotatedMolecule(Fragment([reads[0], None]), features=cont[c], stranded=None)
-                    for extra_read in reads[1:]:
-                        mol._add_fragment(Fragment([extra_read, None]))
+                    mkey = (c, chrom, start, repr(cigars), method)
+                    if mkey in kept_molecules:
+                        # the SAME molecule object is annotated again (tools re-annotate after loading further features): the answer must follow the index
+                        mol, ep_ = kept_molecules[mkey]
+                        if ep_ < epoch[c]:
+                            probe('molecule_reannotated_after_reindex')
+                    else:
+                        mol = FeatureAnnotatedMolecule(Fragment([reads[0], None]), features=cont[c], stranded=None)
+                        for extra_read in reads[1:]:
+                            mol._add_fragment(Fragment([extra_read, None]))
+                    kept_molecules[mkey] = (mol, epoch[c])
                     mol.annotate(method=method)
                     got_names = set(mol.hits.keys())
                     got = []
